@@ -273,6 +273,7 @@ type xProject struct {
 	Profiles []struct {
 		ID   string `xml:"id"`
 		Deps []xDep `xml:"dependencies>dependency"`
+		Mgmt []xDep `xml:"dependencyManagement>dependencies>dependency"`
 	} `xml:"profiles>profile"`
 	ParentVersion string `xml:"parent>version"`
 	ParentPath    string `xml:"parent>relativePath"`
@@ -328,6 +329,9 @@ func readPomReqs(dir string) (map[string]string, error) {
 		for _, pf := range p.Profiles {
 			for _, d := range pf.Deps {
 				out[file+"|profile "+strings.TrimSpace(pf.ID)+"|"+d.G+":"+d.A] = interpolate(strings.TrimSpace(d.V), pr)
+			}
+			for _, d := range pf.Mgmt {
+				out[file+"|profile-management "+strings.TrimSpace(pf.ID)+"|"+d.G+":"+d.A] = interpolate(strings.TrimSpace(d.V), pr)
 			}
 		}
 		if p.ParentVersion != "" {
@@ -514,6 +518,16 @@ func features(w *World, ups []result.PackageUpdate, vulns ...[]result.Vuln) stri
 		if p := w.Manifest.Pom; p != nil && p.EmptyMgmt && len(p.Mgmt) == 0 {
 			f = append(f, "empty-management-element")
 		}
+		if p := w.Manifest.Pom; p != nil {
+			for _, pf := range p.Profiles {
+				if pf.ID == "" {
+					f = append(f, "unnamed-profile")
+				}
+				if len(pf.Mgmt) > 0 && len(p.Mgmt) == 0 {
+					f = append(f, "management-only-in-profile")
+				}
+			}
+		}
 	}
 	sort.Strings(f)
 	out := f[:0]
@@ -540,7 +554,7 @@ func mavenTraits(w *World, name string) []string {
 		}
 		lists := [][]MDep{pom.Deps, pom.Mgmt}
 		for _, pf := range pom.Profiles {
-			lists = append(lists, pf.Deps)
+			lists = append(lists, pf.Deps, pf.Mgmt)
 		}
 		for li, l := range lists {
 			for _, d := range l {
@@ -619,6 +633,11 @@ func mavenTraits(w *World, name string) []string {
 				}
 			}
 		}
+	}
+	if inProfile && !outsideProfile {
+		// the only declaration of the artifact sits in a profile: the writer files an override
+		// of the (transitive) package under that declaration
+		f = append(f, "declared-only-in-profile")
 	}
 	if inProfile && outsideProfile {
 		// Update identifies declarations by groupId:artifactId only (known finding R-F4)
